@@ -1,12 +1,12 @@
 #!/bin/sh
 # usage: tools/try_patch_iso.sh <patch.diff> <check id>...  -- like try_patch.sh but never touches /repo:
 # the patch is applied to a scratch worktree of /repo HEAD and the checks run with VERIF_REPO pointing at it.
-# (the evidence file of each check is rewritten by the patched run: re-run the check on /repo afterwards)
+# (the evidence file of each check is saved before and restored after the patched run)
 P="$1"; shift
 W=/tmp/tp_$$/repo
 mkdir -p /tmp/tp_$$
 git -C /repo worktree add -q --detach $W HEAD || exit 2
 cp /repo/src/pydrobert/speech/_version.py $W/src/pydrobert/speech/_version.py
 git -C $W apply "$P" || { echo "PATCH DOES NOT APPLY"; git -C /repo worktree remove --force $W; exit 2; }
-for id in "$@"; do ( cd /verif && VERIF_REPO=$W ./check $id 2>&1 | tail -4 ); done
+for id in "$@"; do ( cd /verif && cp evidence/$id.json /tmp/tp_$$/$id.evidence.json 2>/dev/null; VERIF_REPO=$W ./check $id 2>&1 | tail -4; cp /tmp/tp_$$/$id.evidence.json evidence/$id.json 2>/dev/null; rm -f /tmp/tp_$$/$id.evidence.json ); done
 git -C /repo worktree remove --force $W; rmdir /tmp/tp_$$ 2>/dev/null
